@@ -38,7 +38,9 @@ Lemma c08_pred_mirror w z y : WFin w -> k_ext (gett w z) = false -> In y (k_pred
 Proof.
   intros H Hz Hy Hyext. pose proof (c08_wfin_member w z H Hz) as M. unfold wfin_member_b in M.
   repeat (apply andb_true_iff in M; let X := fresh "X" in destruct M as [M X]).
-  rewrite forallb_forall in X6. specialize (X6 y Hy). apply andb_true_iff in X6. destruct X6 as [_ A].
+  assert (HP : forallb (fun p => in_range w p && negb (Nat.eqb p z)
+                                 && (is_ext w p || memb z (k_succs (gett w p)))) (k_preds (gett w z)) = true) by assumption.
+  rewrite forallb_forall in HP. specialize (HP y Hy). apply andb_true_iff in HP. destruct HP as [_ A].
   unfold is_ext in A. rewrite Hyext in A. simpl in A. apply memb_true. exact A.
 Qed.
 
